@@ -619,7 +619,7 @@ def c19(tier, rep):
         rep.violation({"kind": "spec-invariant", "invariant": inv}, {"engine": "MC_Markdown", "what": f"{inv} violated", "tlc_tail": res.out[-3000:]})
     for b in bad[:50]:
         rep.violation({"kind": "markdown-keyword"}, {"engine": "markdown", "what": "Markdown matcher differs from the specification", **b})
-    cases, bad, res = MD.rows_and_tags(4 if tier == "quick" else 6)
+    cases, bad, res = MD.rows_and_tags(4 if tier == "quick" else 6, 8 if tier == "quick" else 9)
     rep.add_tlc("MC_MarkdownRows", res, f"{len(cases)} table-row and tag lines: Inv_RowWindow, Inv_Tags; replayed on match_TableRow / match_TagLine")
     rep.traces += len(cases)
     for c in cases:
